@@ -11,6 +11,9 @@ ENGINES = [
     {"name": "mininif", "path": "harness/common/mininif.hpp",
      "serves_properties": ["C01", "C03", "C05", "C07", "C08"],
      "kind_free_text": "independent NIF header/table/footer reader and writer sharing no code with nifly"},
+    {"name": "engine-G", "path": "harness/common/gen.hpp",
+     "serves_properties": ["C04", "C06", "C09", "C10", "C11", "C12", "C13", "C14", "C17"],
+     "kind_free_text": "API-level model builder: meshes, skins, shapes of every geometry kind, node/collision/controller graphs decoded from the choice tape and built through the public API"},
 ]
 
 NOTES = ("All checks are property-based tests / fuzzers over generated inputs (DESIGN.md). bin/check <ID> rebuilds the "
@@ -21,6 +24,20 @@ NOTES = ("All checks are property-based tests / fuzzers over generated inputs (D
 NOT_YET = {}
 
 TEXT = {
+    "C09": {
+        "engine": "engine-G",
+        "technique": "property-based testing: generated shapes of every geometry kind (API-built, optionally skinned / strips / segments / LOCKEDNORM) and sample shapes x generated sorted deletion sets; reference model computed from a pre-deletion snapshot; save/reload round trip",
+        "level_text": "Tens of thousands of (shape, 1-3 deletions) cases over OB/FO3/SK/SSE/FO4/FO76 and all shape classes; after every deletion vertices, per-vertex attributes, triangles, skin weights, partition tables, dismember list, segments and locked-normal list are compared with a model (remaining elements, re-indexed, in order), the return value is checked, and the result must save and reload to the same geometry.",
+        "level_note": "Partition/segment facts are demanded only if they held before the deletion; strips are held to index validity only, as the statement says. Shapes are built through the public API the way callers build them.",
+        "design_ref": "DESIGN.md section 3, C09",
+    },
+    "C13": {
+        "engine": "engine-G",
+        "technique": "property-based testing: generated meshes (1..65535 vertices incl. limits and over-long inputs) per version, round trip through CreateShapeFromData / setter-getter pairs / save-reload with the storage format's quantisation as explicit tolerance",
+        "level_text": "For OB/FO3/SK/SSE/FO4/FO76 and every setter/getter pair, generated geometry must read back bit-exact (or within half / byte quantisation where the format stores halves / bytes) immediately, after the setter (nothing else resized) and after default save + reload. Sampled, with enumerated limit sizes.",
+        "level_note": "Tolerances are the formats' own: 2^-11 relative for halves, 1/127 for byte normals, 1/255 for byte colours; component values are generated inside [-1,1] for tangent-space vectors.",
+        "design_ref": "DESIGN.md section 3, C13",
+    },
     "C18": {
         "engine": "tape-pbt",
         "technique": "property-based testing + bounded exhaustive enumeration: each utility against a naive reference model and its algebraic laws (erase/insert inverse, collapse/expand inverse), all index types used by callers, exact-capacity containers under ASan",
